@@ -21,6 +21,10 @@ class AnchorMissing(Exception):
     UNDECIDED / ANALYSIS-ERROR, never as a violation and never as a pass."""
 
 
+class GrammarBroken(AnchorMissing):
+    """A grammar file of the package does not load: decided (no text can be parsed with it), not an analysis problem."""
+
+
 class SourceSet:
     def __init__(self, files: dict[str, str], root: str = REPO):
         self.files = dict(files)
